@@ -38,7 +38,7 @@ REQUIRED = ["fit1d|PL|", "fit1d|FDC11|", "fit1d|FDC22|", "fit1d|FDC12|", "fit1d|
             "fit|SE3|MD633|", "fit|R|PL|", "fit|R|FDC11|", "fit|R|MD533|", "fit|R|MD633|",
             "bspline|SO3|", "bspline|R|", "bspline|SE2|",
             "dubins|K3|LSL|", "dubins|K3|RSR|", "dubins|K3|LSR|", "dubins|K3|RSL|", "dubins|K3|RLR|", "dubins|K3|LRL|",
-            "dubins.cand|best.verified|equal",
+            "dubins.cand|best.verified|equal", "dubins.geom|boundary", "dubins.geom|interior",
             "reparam|moving|sv=0|", "reparam|moving|sv>0|ev=0", "reparam|moving|sv>0|ev>0", "reparam|moving|sv>0|ev=inf",
             "reparam|still|"]
 for _dc in ("dt<.03", "dt<.1", "dt<.3", "dt<1", "dt<10", "dt<=100"):
